@@ -51,7 +51,8 @@ def formula_set(tier):
     B = F.binary_ops(I, ops=('and', 'or', 'implies', 'since', 'until'), unless=False)
     GT = ('pred', '>', F.X, F.C0)      # strict comparisons: truth value and robustness sign differ exactly at the threshold
     LT = ('pred', '<', F.Y, F.C1)
-    leaves = [(F.PX, F.PY, MIX), (MIX, F.PX, F.PY), (F.PY, EQ, F.PX), (GT, LT, GT)]
+    NE = ('pred', '!==', F.X, F.Y)
+    leaves = [(F.PX, F.PY, MIX), (MIX, F.PX, F.PY), (F.PY, EQ, F.PX), (GT, LT, GT), (NE, F.PX, NE)]
     fs = list(F.F(1, U, B, leaves))
     f2 = [f for f in F.F(2, U, B, leaves[:1] if quick else leaves) if F.size(f) == 2]
     fs += f2[::6] if quick else f2
